@@ -86,12 +86,7 @@ BUDGET = {"quick": 45, "thorough": 420}
 NCASES = {"quick": 8000, "thorough": 120000}
 CASE_TIMEOUT = 40.0
 EVAL_COUNTER = "cases"
-FLOORS = {
-    "quick": {"case_held": 1500, "effective": 1300, "rejected_as_required": 170, "identity_checks": 170, "form_groups_held": 650,
-              "deriv_held": 200, "nonterminal_held": 170, "literal_sweep_held": 350},
-    "thorough": {"case_held": 25000, "effective": 22000, "rejected_as_required": 3000, "identity_checks": 3000, "form_groups_held": 11000,
-                 "deriv_held": 3600, "nonterminal_held": 3000, "literal_sweep_held": 350},
-}
+FLOORS = {'quick': {'case_held': 1500, 'effective': 1300, 'rejected_as_required': 170, 'identity_checks': 170, 'form_groups_held': 650, 'deriv_held': 200, 'nonterminal_held': 170, 'literal_sweep_held': 350}, 'thorough': {'case_held': 25000, 'effective': 22000, 'rejected_as_required': 3000, 'identity_checks': 3000, 'form_groups_held': 11000, 'deriv_held': 3600, 'nonterminal_held': 3000, 'literal_sweep_held': 350, 'suite:replace:held': 150}}
 COVER_FLOORS = {
     "quick": {"families_held": ["expr", "form", "deriv", "nonterminal"], "itypes_held": ["cell", "exterior_facet", "interior_facet"]},
     "thorough": {"families_held": ["expr", "form", "deriv", "nonterminal"], "itypes_held": ["cell", "exterior_facet", "interior_facet"]},
@@ -1463,3 +1458,14 @@ def case(ctx, i, rng):
     fam = rng.choice(FAMILIES)
     ctx.count("family_" + fam)
     DISPATCH[fam](ctx, i, rng)
+
+
+# ---- additional workload (thorough tier): every replace() call the repository's own tests make, judged by the same
+# value oracle (input evaluated with the mapped terminals overridden by their images; vf/suitemon.py)
+EXTRA_JOBS = {"thorough": ["suite"]}
+
+
+def extra_suite(ctx):
+    from ..suite_driver import run_suite
+
+    run_suite(ctx, ["replace"], "C21")
